@@ -21,7 +21,7 @@ ASSUMPTIONS = ["under --isolate, links (hard or symbolic) that cross roots are o
 FLAGSETS = [[], ["-H"], ["--isolate"], ["-S"], ["-S", "-H"], ["-L"], ["-L", "-S"], ["--isolate", "-H"]]
 FILTERS = [[], ["--rf-over", "0"], ["--rf-over", "2"], ["--rf-over", "3"], ["--rf-under", "1"], ["--rf-under", "2"],
            ["--rf-under", "3"], ["--unique"]]
-SPELLINGS = ["rel", "abs", "dot", "slash", "dotdot", "symlink", "basedir"]
+SPELLINGS = ["rel", "abs", "dot", "slash", "dotdot", "symlink", "basedir", "via_other"]
 
 
 def prepare(tier):
@@ -54,6 +54,10 @@ def spell(root, how, tree_root_placeholder="@TREE@"):
         return root + "/../" + root
     if how == "symlink":
         return "lnk_" + root
+    if how == "via_other":
+        # spelled through the OTHER root (r1/../r1x): textually below it, in fact a sibling
+        other = "r1x" if root.split("/")[0] == "r1" else "r1"
+        return other + "/../" + root
     raise ValueError(how)
 
 
@@ -263,6 +267,9 @@ def evaluate(case):
         exp_rep = set(e["paths"] for e in exp if e["reported"])
         for sp in case["spellings"]:
             roots = [subst(spell(r, sp), sc.tree) for r in case["roots"]]
+            if sp == "via_other":
+                # the first root as it is, the others spelled through it
+                roots = [case["roots"][0]] + roots[1:]
             if sp == "basedir":
                 rc, out, err, to = C.fclones(["group", "--base-dir", sc.tree] + case["args"] + roots + ["-f", "json"], sc, cwd=sc.root)
             else:
